@@ -4,6 +4,7 @@ section (table or stream, `/Prev` to the older one) or a hybrid pair (table with
 `/Prev`); the sections come out newest first, the table of a hybrid revision before its stream.
 -/
 import PdfVerif.Model.Xref
+import PdfVerif.Spec.XrefHist
 
 namespace PdfVerif.Xref
 
@@ -116,5 +117,76 @@ theorem follow_chain {ph : Phys} {o : Option Nat} {ps : List Nat} {L : List (Sec
         simp only [follow, Except.bind] at this ⊢
         rw [this]
         simp
+
+/-- The executable chain follower is sound. -/
+theorem chainOf_sound (ph : Phys) (fuel : Nat) : ∀ (o : Option Nat) (ps : List Nat) (L : List (Section × Trailer)),
+    chainOf ph fuel o = some (ps, L) → Chain ph o ps L := by
+  induction fuel with
+  | zero =>
+    intro o ps L h
+    cases o with
+    | none => simp only [chainOf, Option.some.injEq, Prod.mk.injEq] at h; rw [← h.1, ← h.2]; exact .done
+    | some p => simp [chainOf] at h
+  | succ fuel ih =>
+    intro o ps L h
+    cases o with
+    | none => simp only [chainOf, Option.some.injEq, Prod.mk.injEq] at h; rw [← h.1, ← h.2]; exact .done
+    | some p =>
+      simp only [chainOf] at h
+      cases hl : lookupNat ph.secs p with
+      | none => rw [hl] at h; simp at h
+      | some d =>
+        rw [hl] at h
+        simp only at h
+        cases hd : loadSection ph d with
+        | error e => rw [hd] at h; simp at h
+        | ok st =>
+          obtain ⟨s, tr⟩ := st
+          rw [hd] at h
+          simp only at h
+          cases hx : tr.xrefstm with
+          | none =>
+            rw [hx] at h
+            simp only at h
+            cases hc : chainOf ph fuel tr.prev with
+            | none => rw [hc] at h; simp at h
+            | some r =>
+              rw [hc] at h
+              simp only [Option.map_some, Option.some.injEq, Prod.mk.injEq] at h
+              rw [← h.1, ← h.2]
+              exact .plain hl hd hx (ih _ _ _ hc)
+          | some x =>
+            rw [hx] at h
+            simp only at h
+            cases hlx : lookupNat ph.secs x with
+            | none => rw [hlx] at h; simp at h
+            | some dx =>
+              rw [hlx] at h
+              simp only at h
+              cases hdx : loadSection ph dx with
+              | error e => rw [hdx] at h; simp at h
+              | ok stx =>
+                obtain ⟨sx, trx⟩ := stx
+                rw [hdx] at h
+                simp only at h
+                by_cases hcond : (trx.xrefstm.isNone && trx.prev.isNone) = true
+                · rw [if_pos hcond] at h
+                  simp only [Bool.and_eq_true, Option.isNone_iff_eq_none] at hcond
+                  cases hc : chainOf ph fuel tr.prev with
+                  | none => rw [hc] at h; simp at h
+                  | some r =>
+                    rw [hc] at h
+                    simp only [Option.map_some, Option.some.injEq, Prod.mk.injEq] at h
+                    rw [← h.1, ← h.2]
+                    exact .hybrid hl hd hx hlx hdx hcond.1 hcond.2 (ih _ _ _ hc)
+                · rw [if_neg hcond] at h
+                  simp at h
+
+theorem nodupNat_sound (l : List Nat) (h : nodupNat l = true) : l.Nodup := by
+  induction l with
+  | nil => exact List.nodup_nil
+  | cons a r ih =>
+    simp only [nodupNat, Bool.and_eq_true, Bool.not_eq_true', List.contains_eq_mem, decide_eq_false_iff_not] at h
+    exact List.nodup_cons.mpr ⟨h.1, ih h.2⟩
 
 end PdfVerif.Xref
